@@ -54,6 +54,8 @@ func main() {
 			o = sat.Helpers(*seed, *n)
 		case "messages":
 			o = sat.Messages(*seed, *n)
+		case "dyn":
+			o = sat.Dyn(*seed, *n)
 		default:
 			fmt.Fprintln(os.Stderr, "unknown family", *family)
 			os.Exit(2)
